@@ -151,8 +151,10 @@ def attribute(diag_sets: list, rows: list, line: int) -> tuple[set, list]:
                     props.add("C09")
             if not row.get("dn"):
                 props |= {"C09", "C11"}
-    if row.get("c") == "UserStart" and ("dn" in best or "cs" in best):
-        # "a connection object can be used for one connect attempt only": a second start_connection must be refused at once
+    if (row.get("c") in ("UserStart", "UserFinish") and ("dn" in best or "cs" in best) and line >= 2
+            and rows[line - 2]["cs"] != ("init" if row["c"] == "UserStart" else "opened")):
+        # "a connection object can be used for one connect attempt only": a second start_connection / finish_connection
+        # (the object has been past that phase already) must be refused at once
         props.add("C05")
     if row.get("c") == "EnvJunk":
         # the first fatal cause (requires-encryption / protocol error) must take effect at the offending byte:
